@@ -193,6 +193,7 @@ type Choice struct {
 	defaultVal     *string
 	status         Status
 	cases          map[string]*ChoiceCase
+	caseOrder      []string // case idents in the order they were added
 	ifs            []*IfFeature
 	extensions     []*Extension
 }
@@ -203,6 +204,8 @@ func (y *Choice) addCase(c *ChoiceCase) error {
 		return fmt.Errorf("conflict adding add %s to %s. ", c.Ident(), y.Ident())
 	}
 	y.cases[c.ident] = c
+	// copy on write, clones share the slice
+	y.caseOrder = append(y.caseOrder[:len(y.caseOrder):len(y.caseOrder)], c.ident)
 	return nil
 }
 
@@ -210,13 +213,15 @@ func (y *Choice) Cases() map[string]*ChoiceCase {
 	return y.cases
 }
 
+// CaseIdents are the names of the cases in the order they are written in the
+// YANG (cases augmented in come last)
 func (y *Choice) CaseIdents() []string {
 	idents := make([]string, 0, len(y.cases))
-	for ident := range y.cases {
-		idents = append(idents, ident)
-
+	for _, ident := range y.caseOrder {
+		if _, exists := y.cases[ident]; exists {
+			idents = append(idents, ident)
+		}
 	}
-	sort.Strings(idents)
 	return idents
 }
 
